@@ -15,7 +15,13 @@
 (*   none            benign source                                         *)
 (*   fault at k      the k-th Read/Seek call fails                         *)
 (*   short at k      the k-th call returns fewer bytes than asked (legal)  *)
-(*   trunc           the file was cut before its end (no footer there)     *)
+(*   trunc           the file was cut before its end (no footer there);    *)
+(*                   "trunc, tail" is the cut that removed only trailing    *)
+(*                   bytes (at most 8, the footer is still complete) AND    *)
+(*                   left, where the footer length is looked for, four      *)
+(*                   bytes that lead back to the start of the footer - the  *)
+(*                   trailing magic is then all that tells the file from a  *)
+(*                   complete one                                           *)
 (*   unsup in chunk  one column chunk uses a feature the reader lacks      *)
 (*                                                                         *)
 (* Deviation switches name ways an implementation can get this wrong.      *)
@@ -26,6 +32,8 @@ CONSTANTS NRowGroups, NCols, PagesPerChunk,
           SingleReadPerPage,   \* L3: page bodies are read with one Read call, short reads are not retried
           IgnoreReadError,     \* an error from the source is dropped and decoding goes on
           TrustFooterOnly,     \* a file whose tail is not a footer is treated as empty instead of rejected
+          SkipMagicCheck,      \* the four bytes found eight bytes before the end are taken for the footer length, the trailing magic
+                               \* is not looked at (the unrepaired getMetaDataSize: defect fixed in /repo 33f284d)
           AcceptUnsupported    \* L5: page type / encoding / level encoding are not validated
 
 VARIABLES env, pc, calls, loaded, cursor, rgCursor, delivered, err, corrupt
@@ -49,7 +57,8 @@ IsSeek(k)     == k \in {1, 3, 6}
 Envs == {[kind |-> "none", at |-> 0]}
         \cup {[kind |-> "fault", at |-> k] : k \in 1..AllCalls}
         \cup {[kind |-> "short", at |-> k] : k \in {j \in 1..AllCalls : ~IsSeek(j)}}
-        \cup {[kind |-> "trunc", at |-> 0]}
+        \cup {[kind |-> "trunc", at |-> 0]}      \* the tail is no trailer and leads nowhere
+        \cup {[kind |-> "trunc", at |-> 1]}      \* only trailing bytes are gone and the "length" found leads to the footer
         \cup {[kind |-> "unsup", at |-> c] : c \in 0..(NRowGroups * NCols - 1)}
 
 Init == /\ env \in Envs
@@ -76,7 +85,9 @@ SrcCall ==
      /\ calls' = k
      /\ IF env.kind = "trunc" /\ k = 2
         THEN \* the last 8 bytes are not a footer trailer
-             IF TrustFooterOnly
+             IF env.at = 1 /\ SkipMagicCheck
+             THEN Proceed(k, FALSE)          \* ... but nobody looks: the footer is found and the file read like a complete one
+             ELSE IF TrustFooterOnly
              THEN /\ pc' = "done" /\ UNCHANGED <<loaded, cursor, rgCursor, delivered, err, corrupt>>   \* "empty file", no error
              ELSE Fail
         ELSE IF env.kind = "fault" /\ env.at = k
